@@ -7,7 +7,11 @@ NAME=$1; PATCH=$2; TIER=$3; shift 3
 ROOT=/tmp/iso/$NAME
 rm -rf $ROOT; mkdir -p $ROOT
 git -C /repo worktree prune
-git -C /repo worktree add -q --detach $ROOT/repo HEAD || exit 2
+for try in 1 2 3 4 5 6; do   # concurrent runs contend for /repo's git lock files
+  git -C /repo worktree add -q --detach $ROOT/repo HEAD 2>/dev/null && break
+  rm -rf $ROOT/repo; git -C /repo worktree prune 2>/dev/null; sleep $try
+done
+[ -d $ROOT/repo/policy ] || { echo "iso=$NAME could not create the scratch worktree"; exit 2; }
 if [ "$PATCH" != "-" ]; then git -C $ROOT/repo apply "$PATCH" || { echo "patch does not apply"; git -C /repo worktree remove --force $ROOT/repo; exit 2; }; fi
 rsync -a --exclude .git --exclude replays --exclude seeded --exclude refactors /verif/ $ROOT/verif/
 cd $ROOT/verif
